@@ -15,8 +15,8 @@ var asaTopHeads = map[string]bool{"access-list": true, "object-group": true, "ac
 var groupMemberHeads = map[string]bool{"network-object": true, "port-object": true, "service-object": true,
 	"protocol-object": true, "icmp-object": true, "group-object": true, "description": true}
 
-func (d *Device) EnterConfig() {}
-func (d *Device) LeaveConfig() { d.leaveMode() }
+func (d *Device) EnterConfig() { d.leftConf = false }
+func (d *Device) LeaveConfig() { d.leaveMode(); d.leftConf = false }
 
 func (d *Device) leaveMode() {
 	d.modeBlock, d.modeGroup, d.modeACL, d.modeSub, d.modeStray = nil, nil, nil, "", false
@@ -97,6 +97,15 @@ func (d *Device) Exec(line string) (out string, verdict string) {
 }
 
 func (d *Device) exec(line string) string {
+	if d.leftConf {
+		// A previous 'exit' was sent at (config) level: the session is
+		// back in exec mode, where configuration commands are invalid.
+		return "rejected:mode command '" + line + "' sent after an 'exit' that left configuration mode"
+	}
+	if line == "exit" && !d.inMode() && d.modeSub == "" {
+		d.leftConf = true
+		return "accepted"
+	}
 	if d.Kind == "asa" {
 		return d.execASA(line)
 	}
